@@ -13,6 +13,7 @@ pub mod c13;
 pub mod c14;
 pub mod c15;
 pub mod c18;
+pub mod c19;
 pub mod c20;
 pub mod dom;
 pub mod e2;
@@ -29,6 +30,7 @@ pub fn run(ctx: &Ctx) -> ! {
         "C05" => e2::main(ctx, e2::Prop::C05),
         "C06" => e2::main(ctx, e2::Prop::C06),
         "C18" => e2::main(ctx, e2::Prop::C18),
+        "C19" => c19::main(ctx),
         "C20" => c20::main(ctx),
         "C09" => c01::main(ctx, true),
         "C07" => c07::main(ctx),
@@ -50,6 +52,7 @@ pub fn replay(ctx: &Ctx, v: &serde_json::Value, witness: &str) {
         "C05" => e2::replay(ctx, e2::Prop::C05, v),
         "C06" => e2::replay(ctx, e2::Prop::C06, v),
         "C18" => e2::replay(ctx, e2::Prop::C18, v),
+        "C19" => c19::replay(ctx, v),
         "C20" => e2::replay(ctx, e2::Prop::C20, v),
         "C09" => c01::replay(ctx, v, true),
         "C07" => c07::replay(ctx, v),
